@@ -12,7 +12,7 @@ import (
 
 func init() { scenarios["C17"] = scenarioC17 }
 
-var c17FaultKinds = []string{"truncate", "bitflip", "garbage", "empty", "nuls", "long-line", "huge-number", "negative-number", "non-hex", "missing-version", "doubled-version", "foreign-version", "directory", "dangling-symlink", "now-passes", "extra-fields", "only-comments", "crlf", "dotless-version", "near-version", "empty-version"}
+var c17FaultKinds = []string{"truncate", "bitflip", "garbage", "empty", "nuls", "long-line", "huge-number", "negative-number", "non-hex", "missing-version", "doubled-version", "foreign-version", "directory", "dangling-symlink", "now-passes", "extra-fields", "only-comments", "crlf", "dotless-version", "near-version", "empty-version", "blank-lines"}
 
 // corrupt applies fault kind k to a valid file; returns nil content for the special (non-regular) kinds.
 func corrupt(kind string, valid []byte, r *RNG, arg int) []byte {
@@ -95,6 +95,21 @@ func corrupt(kind string, valid []byte, r *RNG, arg int) []byte {
 		return []byte(strings.Join(lines[:dataStart], "\n") + "\n# nothing else\n")
 	case "crlf":
 		return []byte(strings.ReplaceAll(string(valid), "\n", "\r\n"))
+	case "blank-lines":
+		// completely empty lines: alone, inside garbage, with CRLF, or inserted into an otherwise valid file
+		switch arg % 4 {
+		case 0:
+			return []byte("\n")
+		case 1:
+			return []byte("garbage\n\n\nmore garbage\n")
+		case 2:
+			return []byte("\r\n\r\n")
+		default:
+			out := append([]string{}, lines[:dataStart]...)
+			out = append(out, "", "")
+			out = append(out, lines[dataStart:]...)
+			return []byte(strings.Join(out, "\n"))
+		}
 	case "now-passes":
 		return append([]byte(nil), valid...)
 	}
